@@ -92,6 +92,7 @@ WrongTab == [
 AllWrong    == DOMAIN WrongTab          \* cfg: WrongKinds <- AllWrong
 SomeWrong   == {"c", "I", "s", "t0"}     \* shorter, same size, longer, empty
 SeqWrong    == {"I", "s"}
+SeqWrong1   == {"s"}
 DefInvalid  == {-1}                      \* cfg: Invalid <- DefInvalid (no negative literals in cfg files)
 ASSUME WrongKinds \subseteq DOMAIN WrongTab
 ASSUME \A k \in WrongKinds : WrongTab[k].sig # DeclSig
